@@ -88,7 +88,19 @@ func genC11(seed uint64, tier string) *plan.Plan {
 			kind = "template"
 		} else {
 			t := tmpls[r.IntN(len(tmpls))]
-			b = t.dataMsg(hdr(), t.dataBody(r, 1+r.IntN(4), []int{0, 5, 300}[r.IntN(3)], r.IntN(4) == 0, false))
+			nrec := 1 + r.IntN(4)
+			if r.IntN(5) == 0 {
+				// a long message: beyond one read buffer (4 KiB), up to the 64 KiB limit
+				nrec = 20 + r.IntN(1500)
+			}
+			for {
+				body := t.dataBody(r, nrec, []int{0, 5, 300}[r.IntN(3)], r.IntN(4) == 0, false)
+				if len(body)+20 <= 65535 {
+					b = t.dataMsg(hdr(), body)
+					break
+				}
+				nrec = nrec/2 + 1
+			}
 			kind = "data"
 		}
 		pl.Ops = append(pl.Ops, plan.Op{K: "msg", T: 0, X: hex.EncodeToString(b), S: kind})
@@ -107,6 +119,9 @@ func genC11(seed uint64, tier string) *plan.Plan {
 	// segmentation of conn 0's stream
 	var cuts []int64
 	style := r.IntN(5)
+	if total > 8192 && style < 2 {
+		style = 2 + r.IntN(2) // tens of thousands of tiny delayed pieces only cost time
+	}
 	rest := total
 	for rest > 0 {
 		var k int
@@ -254,8 +269,14 @@ func runC11(pl *plan.Plan, out *plan.Outcome) {
 		c.Hook = func(_ *simnet.Conn, p []byte) simnet.WritePlan {
 			wp := simnet.WritePlan{Accept: -1}
 			pos := 0
+			var delayed time.Duration
 			for i := 0; i+1 < len(cuts); i += 2 {
-				wp.Pieces = append(wp.Pieces, simnet.Piece{Len: int(cuts[i]), Delay: time.Duration(cuts[i+1])})
+				d := time.Duration(cuts[i+1])
+				if delayed+d > time.Hour {
+					d = 0 // the harness waits two hours for the stream to arrive
+				}
+				delayed += d
+				wp.Pieces = append(wp.Pieces, simnet.Piece{Len: int(cuts[i]), Delay: d})
 				pos += int(cuts[i])
 				onBoundary := false
 				for _, b := range bounds {
